@@ -168,7 +168,7 @@ class Run:
         self.mismatches += mm
         self.cov["evaluations"] += summ["cases"]
         self.cov["replay_runs"].append(dict(cases=summ["cases"], mismatches=len(mm), label=label, profile=profile,
-                                            wall_s=round(dt, 1), **{k: v for k, v in summ.items() if k not in ("cases",)}))
+                                            wall_s=round(dt, 1), **{k: v for k, v in summ.items() if k not in ("cases", "mismatches", "samples")}))
         for s in summ.get("samples", [])[:2]:
             self._sample(s)
         log(f"[replay] {label} ({profile}): {summ['cases']} cases, {len(mm)} mismatches, {dt:.1f}s")
